@@ -860,6 +860,12 @@ class BaseWorkflow(object, metaclass=abc.ABCMeta):
             filter(lambda task: len(task.output_task_list) == 0, self.task_list)
         )
 
+        # Forget the values of earlier calls: the comparison with pre_lft below must only see
+        # values computed in this pass.
+        for task in self.task_list:
+            task.lst = -1.0
+            task.lft = -1.0
+
         # 2. Update the information of critical path of this workflow.
         self.critical_path_length = max(output_task_set, key=lambda task: task.eft).eft
         for task in output_task_set:
